@@ -170,7 +170,7 @@ fn any_act() -> Act {
     }
 }
 
-// @check C16 quick timeout=1800 mem=14
+// @check C16 quick timeout=2400 mem=30
 // @encodes buf::write_all_vectored, buf::advance_slices, smallvec collect/extend, std::io::IoSlice
 // @bounds 3 buffers of symbolic length 0..=3 and symbolic bytes (at least one byte in total); writer script of up to 3 calls, each symbolically: accept k bytes (any k incl. 0 and more than offered), Interrupted, or a hard error; the 4th call (if reached) accepts everything
 // @oracle at EVERY call the buffers offered are exactly the suffix of the record starting at the number of bytes accepted so far (length and symbolic-index byte check) - nothing duplicated or omitted however writes are split; Ok => every byte accepted; zero-length write => WriteZero error; hard error => surfaced, no further calls; Interrupted => retried
